@@ -281,3 +281,13 @@ PROPS["C05"].update({
     "explanation": "Theorems: decode_data_total - for every list of codewords the data-decoder model (every Rust panic site an explicit outcome) returns a value or a documented error, never a panic, and its loop bound is never reached; try_from_bits_total - the bitmap parser only reads inside the pixel array (with C08's theorems: every pixel array gets an answer). The string decoder and the Reed-Solomon decoder are decided by model/implementation correspondence (models with explicit panic outcomes vs the real code under catch_unwind, checked profile = overflow checks and debug assertions on) on exhaustive-short, grammar-aware mutated, crafted-syndrome and random inputs; any panic of the implementation is a violation on its own.",
     "level_text": "Partial proof (data decoder and bitmap parser total for all inputs) + exploration with model correspondence for decode_str and the Reed-Solomon decoder.",
 })
+
+PROPS["C16"].update({"lean": ["DM.Props.C16"], "gens": ["c16", "c16m"],
+    "explanation": PROPS["C16"]["explanation"] + " Theorems (DM/Props/C16.lean) about the model of with_size + use_macro_if_possible, which is compared with the code through the macro_prefix hook on every envelope shape (each header truncated by 0..6 bytes x full/partial/missing trailer x flags): macro_total (the slice never panics), macro05_iff / macro06_of_envelope (a Macro codeword is written exactly when macros are on, no FNC1 start, and the message is header ++ body ++ trailer; the encoder continues with exactly the body), fnc1_first, macros_off, no_trailer_verbatim.",
+    "level_text": "Partial proof (decision logic of macro compaction / FNC1 start proved on the model, tied by correspondence) + exploration with specification oracle for losslessness."})
+PROPS["C02"].update({"lean": ["DM.Props.C02"], "gens": ["c02", "c02p"],
+    "explanation": PROPS["C02"]["explanation"] + " Theorem padding_conformant (DM/Props/C02.lean): for every prefix and capacity the model of add_padding, compared with the code through the add_padding hook for every size and prefix length, writes UNLATCH if needed, 129, then codewords that the standard's 253-state de-randomisation maps to 129, and nothing else.",
+    "level_text": "Partial proof (padding proved for all prefixes and capacities) + exploration with specification oracle for the mode encoders."})
+PROPS["C14"].update({"lean": ["DM.Props.C14"],
+    "explanation": PROPS["C14"]["explanation"] + " Theorems (DM/Props/C14.lean) over the two per-character tables regenerated on every run: latin1_agrees_iso8859_1, latin1_inverse_l / latin1_inverse_r (the helpers are mutually inverse on their domains, for whole strings).",
+    "level_text": "Partial proof (Latin-1 helpers) + exploration with specification oracle, exhaustive over one-character strings."})
